@@ -3,7 +3,7 @@
    The model (Model/Counters.v) is tied to aiohomekit/controller/{ip/connection,
    ble/key, ble/client, ble/pairing, coap/connection}.py by harness/c06.py.
 
-   Vocabulary: a history is any list of events (send, deliver next / replayed /
+   Vocabulary: a history is any list of events (send, send with a refused GATT write, deliver next / replayed /
    old-epoch / future / corrupted frame, cancel, timeout, disconnect, reconnect,
    CoAP events); l_seal is the list of (key epoch, direction, nonce) given to the
    AEAD seal, l_wire those that reached the transport, l_open every nonce tried on
@@ -113,6 +113,16 @@ Example c06_ble_nonvacuous :
   /\ l_seal (b_log (ble_run ble_init (h1 ++ h2)))
      = [((0, C2A), 0); ((0, C2A), 1); ((0, C2A), 2); ((1, C2A), 0); ((1, C2A), 1)]
   /\ l_acc (b_log (ble_run ble_init (h1 ++ h2))) = [((0, A2C), 0); ((0, A2C), 1); ((1, A2C), 0)].
+Proof. cbv zeta. repeat split; vm_compute; reflexivity. Qed.
+
+(* a refused GATT write (fragment 1 of 2) is a failed request: both fragments sealed, one written, epoch dead *)
+Example c06_ble_write_refused :
+  let h1 := [Send 1 0; Next; SendW 30 1 1] in
+  failed_in (b_log (ble_run ble_init h1)) 0 = true
+  /\ l_seal (b_log (ble_run ble_init (h1 ++ [Send 1 0; Reconnect; Send 1 0])))
+     = [((0, C2A), 0); ((0, C2A), 1); ((0, C2A), 2); ((1, C2A), 0)]
+  /\ l_wire (b_log (ble_run ble_init (h1 ++ [Send 1 0; Reconnect; Send 1 0])))
+     = [((0, C2A), 0); ((0, C2A), 1); ((1, C2A), 0)].
 Proof. cbv zeta. repeat split; vm_compute; reflexivity. Qed.
 
 Example c06_coap_nonvacuous :
